@@ -77,13 +77,8 @@ fn gen_kind_iv<'a>(ctx: &'a Ctx, t: &mut Tape<'_>) -> Option<(StreamKind, &'a Su
     let suite = ctx.pick_suite(t, |s| s.has_stream(kind))?;
     let bs = suite.info.bs;
     let key = gen_key(t, suite);
-    let iv = match kind {
-        StreamKind::Ctr(w, be) => gen_ctr_iv(t, bs, w, be),
-        _ => {
-            let _ = (t.byte(), t.u32(), t.idx(4));
-            gen_iv(t, bs)
-        }
-    };
+    let c = (suite.keyed)(&key);
+    let iv = gen_stream_iv(t, kind, bs, c.as_ref(), suite.info.has_dec);
     Some((kind, suite, key, iv))
 }
 
